@@ -238,7 +238,7 @@ func ruleLookaheadCovered(w *World, r *Report) {
 			r.Bad(key, w.InstrPos(u.ins), fmt.Sprintf("the read at offset +%d is dominated by window guards that prove only offset +%d in range (strongest guard at %s): index out of range when the input ends there", u.j, u.k, w.InstrPos(u.guard)))
 		}
 	}
-	r.Expect("lookahead reads covered by a window guard", covered, 60)
+	r.Expect("lookahead reads covered by a window guard", covered, 44)
 	if flagged == 0 {
 		r.OK("all lookahead reads under a window guard are covered", "", fmt.Sprintf("%d reads", covered))
 	}
@@ -273,7 +273,7 @@ func ruleWideGuards(w *World, r *Report) {
 			}
 		}
 	}
-	r.Expect("window guards with lookahead in package util", n, 5)
+	r.Expect("window guards with lookahead in package util", n, 3)
 }
 
 // ruleComputedSliceEnd (C01-S).
